@@ -327,7 +327,13 @@ impl World {
         } else {
             100 + slot as u16
         };
-        let id = ChitchatId::new(self.node_id_string(slot), gen, addr(port));
+        // address families vary per trace and slot: plain IPv4, IPv6, IPv4-mapped IPv6
+        let a: std::net::SocketAddr = match (self.seed / 7 + slot as u64) % 4 {
+            0 => format!("[2001:db8::{:x}]:{port}", slot + 1).parse().unwrap(),
+            1 => format!("[::ffff:10.0.0.{}]:{port}", slot + 1).parse().unwrap(),
+            _ => addr(port),
+        };
+        let id = ChitchatId::new(self.node_id_string(slot), gen, a);
         let cb = Arc::new(AtomicUsize::new(0));
         let cb2 = cb.clone();
         let predicate: Option<Box<dyn Fn(&NodeState) -> bool + Send>> =
